@@ -237,3 +237,9 @@ def lemmas(u: Unit):
     lam = z3.Real("lambda")
     s1, s2 = z3.Real("step_i"), z3.Real("step_i_scaled")
     u.oblige(None, "destructive.proportional", phi * s2 == lam * (phi * s1), {}, LEMMA_REPLAY, fnq=fq, hyps=[s2 == lam * s1])
+
+
+# "non-destructive mode keeps the pixel bucket between steps" must hold for EVERY detector type: the per-step reset as each
+# detector class resolves it (MKID overrides Detector.empty) is proved in C02's unit, which is part of this check as well
+from . import C02 as _C02  # noqa: E402
+unit("C17", "nondestructive.keeps_pixel_all_detector_types")(_C02.empty_all_types)
